@@ -53,17 +53,23 @@ func resReplay(s *Summary, raw json.RawMessage) {
 		if ctl.mask != mask {
 			continue
 		}
-		for rep := 0; rep < 4; rep++ {
-			resRun(s, &c, ctl, base, rep%2 == 1)
+		for rep := 0; rep < 6; rep++ {
+			resRun(s, &c, ctl, base, rep%3)
 		}
 	}
 }
 
-func resRun(s *Summary, c *resCase, ctl resCtl, base string, nested bool) {
+// placement 0: at top level; 1: inside a root-prefix group with three Use calls; 2: inside a group with the prefix /n
+func resRun(s *Summary, c *resCase, ctl resCtl, base string, placement int) {
+	nested := placement == 1
+	outer := ""
+	if placement == 2 {
+		outer = "/n"
+	}
 	name := strings.ToLower(ctl.name)
 	desc := func(aspect, what string) map[string]any {
-		return map[string]any{"kind": "resource", "aspect": aspect, "controller": ctl.name, "uses": ctl.uses, "base": base, "nested": nested,
-			"what": fmt.Sprintf("Resource(%q, %s implementing %v, Uses=%v, inside a group with 3 Use calls=%v): %s", base, ctl.name, c.Impl, ctl.uses, nested, what)}
+		return map[string]any{"kind": "resource", "aspect": aspect, "controller": ctl.name, "uses": ctl.uses, "base": base, "nested": nested, "outer_group": outer,
+			"what": fmt.Sprintf("Resource(%q, %s implementing %v, Uses=%v, inside a group with 3 Use calls=%v, inside Group(%q)): %s", base, ctl.name, c.Impl, ctl.uses, nested, outer, what)}
 	}
 	r := rux.New()
 	r.GET("/unrelated", nopHandler)
@@ -71,6 +77,10 @@ func resRun(s *Summary, c *resCase, ctl resCtl, base string, nested bool) {
 	grp := nested
 	func() {
 		defer func() { pan = recover() }()
+		if placement == 2 {
+			r.Group(outer, func() { r.Resource(base, ctl.mk()) })
+			return
+		}
 		if !grp {
 			r.Resource(base, ctl.mk())
 			return
@@ -94,7 +104,7 @@ func resRun(s *Summary, c *resCase, ctl resCtl, base string, nested bool) {
 	for _, row := range c.Table {
 		ms := append([]string{}, row.Methods...)
 		sort.Strings(ms)
-		want[fmt.Sprintf("%s %s %s_%s", strings.Join(ms, ","), fix(strings.Join(row.Path, "")), name, strings.ToLower(row.Action))] = true
+		want[fmt.Sprintf("%s %s %s_%s", strings.Join(ms, ","), outer+fix(strings.Join(row.Path, "")), name, strings.ToLower(row.Action))] = true
 	}
 	got := map[string]bool{}
 	for _, ri := range r.Routes() {
@@ -123,7 +133,7 @@ func resRun(s *Summary, c *resCase, ctl resCtl, base string, nested bool) {
 			return
 		}
 	}
-	root := "/" + strings.Trim(base+name, "/")
+	root := outer + "/" + strings.Trim(base+name, "/")
 	pathOf := map[string]string{"root": root, "create": root + "/create", "item": root + "/7", "edit": root + "/7/edit",
 		"createedit": root + "/create/edit", "deep": root + "/7/x", "other": "/other"}
 	for _, pr := range c.Probes {
@@ -156,7 +166,8 @@ func resRun(s *Summary, c *resCase, ctl resCtl, base string, nested bool) {
 // another base path) must attach the per-action middleware again
 type sharedUses struct{}
 
-var sharedUsesMap = map[string][]rux.HandlerFunc{"Index": {resMw("Index")}, "Show": {resMw("Show")}, "Delete": {resMw("Delete")}}
+var sharedUsesMap = map[string][]rux.HandlerFunc{"Index": {resMw("Index"), resMw("IndexB"), resMw("IndexC")}, "Show": {resMw("Show")},
+	"Delete": {resMw("Delete"), resMw("DeleteB")}}
 
 func (*sharedUses) Index(c *rux.Context)               { c.WriteString("Index") }
 func (*sharedUses) Show(c *rux.Context)                { c.WriteString("Show") }
@@ -171,7 +182,8 @@ func resFinish(s *Summary) {
 	for round := 1; round <= 2; round++ {
 		r := rux.New()
 		r.Resource("/", &sharedUses{})
-		for _, pr := range [][3]string{{"GET", "/shareduses", "mw:Index;Index"}, {"GET", "/shareduses/7", "mw:Show;Show"}, {"DELETE", "/shareduses/7", "mw:Delete;Delete"}} {
+		for _, pr := range [][3]string{{"GET", "/shareduses", "mw:Index;mw:IndexB;mw:IndexC;Index"}, {"GET", "/shareduses/7", "mw:Show;Show"},
+			{"DELETE", "/shareduses/7", "mw:Delete;mw:DeleteB;Delete"}} {
 			w := httptest.NewRecorder()
 			r.ServeHTTP(w, &http.Request{Method: pr[0], URL: &url.URL{Path: pr[1]}, Header: http.Header{}, Proto: "HTTP/1.1"})
 			s.Compared++
